@@ -122,11 +122,39 @@ def gen_cases(run, tier):
                             if rng.random() < 0.3:
                                 syncs.append({o: rng.choice([None] + vals(o)) for o in BEHS})
                         if rng.random() < 0.3:
-                            syncs[0]['filters'] = ['+a.*', '-b']
-                        filt = rng.choice([[], [], ['-x'], ['+y', '-z/.*']])
+                            syncs[0]['filters'] = rng.choice([['+a.*', '-b'], ['+a.*', '-b', '+a.*']])
+                        filt = rng.choice([[], [], ['-x'], ['+y', '-z/.*'], ['-x', '+y', '-x']])
                         cases.append(Case(flags=flags, alld=alld, spec_text=spec_text_for(syncs), spec_syncs=syncs,
                                           filters=filt, deploy=rng.choice([None, None, 'Prompt', 'Error', 'Ok', 'Force']),
                                           kind='product-spec'))
+    # (1b) filter lists, in particular with the same filter text more than once: the effective list of every sync is exactly
+    #      the command-line list when one is given (order and multiplicity - the last matching filter wins, so position
+    #      matters), otherwise exactly the list of that sync in the spec file.
+    FL = [[], ['-x'], ['+y', '-z/.*'], ['-x', '-x'], ['+a', '+a', '+a'],
+          ['-.*[.]log', '+debug/.*', '-.*[.]log'], ['+a(/.*)?', '-a/x[.]tmp', '+a(/.*)?'], ['-b', '+a.*', '-b', '+a.*'],
+          ['+q', '-r', '-s', '+q', '-t'], ['-m', '+n', '+n', '-m'], ['+u|v', '-u', '+u|v', '-u', '+u|v']]
+    for cli in FL:
+        cases.append(Case(filters=cli, kind='filters-args'))
+        for spec_lists in [[f] for f in FL] + [[FL[5], FL[7]], [FL[6], [], FL[9]], [FL[3], FL[5], FL[10]]]:
+            if not cli and not any(spec_lists) and rng.random() < 0.5:
+                continue
+            syncs = [({'filters': list(f)} if f else {}) for f in spec_lists]
+            cases.append(Case(filters=cli, spec_text=spec_text_for(syncs), spec_syncs=syncs, kind='filters-spec',
+                              alld=rng.choice([None, None, 'Error']), flags={rng.choice(BEHS): 'Skip'} if rng.random() < 0.3 else {}))
+    n_rf = 60 if tier == 'quick' else 1000
+    atoms = ['a', 'b', 'c/.*', '.*[.]tmp', 'd|e', '(?i)f']
+    for _ in range(n_rf):
+        def rl():
+            l = [rng.choice('+-') + rng.choice(atoms) for _ in range(rng.randint(1, 5))]
+            for _ in range(rng.randint(0, 3)):          # repeat earlier filters at later positions
+                l.insert(rng.randint(1, len(l)), rng.choice(l))
+            return l
+        cli = rl() if rng.random() < 0.6 else []
+        if rng.random() < 0.4:
+            cases.append(Case(filters=cli or rl(), kind='filters-args'))
+        else:
+            syncs = [({'filters': rl()} if rng.random() < 0.8 else {}) for _ in range(rng.randint(1, 3))]
+            cases.append(Case(filters=cli, spec_text=spec_text_for(syncs), spec_syncs=syncs, kind='filters-spec'))
     # (2) thorough: all pairs of behaviours jointly (spec x cli x all for both) would be 5^6 - sample pairs exhaustively on cli x all
     if tier == 'thorough':
         for b1, b2 in itertools.combinations(BEHS, 2):
@@ -200,7 +228,7 @@ def oracle(case, impl_line):
     if not impl_line.startswith('OK '):
         return None if case.kind.startswith('mutated') or case.kind == 'spelling' else 'rejected a valid configuration: ' + impl_line[:80]
     spec, syncs = parse_ok(impl_line)
-    if case.kind in ('product-args', 'product-spec', 'pairs'):
+    if case.kind in ('product-args', 'product-spec', 'pairs', 'filters-args', 'filters-spec'):
         intended = case.spec_syncs if case.spec_syncs is not None else [{}]
         if len(syncs) != len(intended):
             return 'number of syncs %d != %d' % (len(syncs), len(intended))
@@ -246,7 +274,7 @@ def run_cases(run, cases, binary, jbin, tmp):
         run.count('kind:' + c.kind)
         icls = il.split()[0] if il else 'EMPTY'
         run.count('impl:' + icls)
-        nontrivial = icls == 'OK' and (c.alld is not None or any(c.flags.values()) or c.spec_text is not None)
+        nontrivial = icls == 'OK' and (c.alld is not None or any(c.flags.values()) or c.spec_text is not None or bool(c.filters))
         run.case((c.argv()[2:] if c.spec_text is not None else c.argv(), c.spec_text), nontrivial,
                  sample={'case': c.describe(), 'impl': il[:300], 'model': ml[:300]})
         run.traces_validated += 1
@@ -254,7 +282,8 @@ def run_cases(run, cases, binary, jbin, tmp):
         same = (il == ml) if icls == 'OK' else (ml == {'ERR': 'ERR', 'CLAPERR': 'CLAPERR'}.get(icls, '?'))
         bad = oracle(c, il)
         if bad:
-            run.fail('C16 oracle: ' + bad, {'case': c.describe(), 'impl': il, 'model': ml})
+            run.fail('C16 oracle: %s (argv %r%s)' % (bad, c.describe()['argv'], ', spec file:\n' + c.spec_text if c.spec_text else ''),
+                     {'case': c.describe(), 'impl': il, 'model': ml})
         elif not same:
             run.broke('correspondence', 'resolve', json.dumps({'case': c.describe(), 'impl': il, 'model': ml})[:1500])
 
@@ -300,8 +329,10 @@ def check(run):
         'modelled, not verified: clap argument parsing and value-enum matching, yaml-rust scanning (the model starts from the YAML tree the real scanner produced)']
     run.assumptions = ['spec files are compared from the YAML tree delivered by yaml-rust 0.4.5 (tree dump through the harness)']
     run.extra['rule'] = ('full product per behaviour spec{absent+4} x flag{absent+4} x all{absent+4} with the other behaviours randomised, '
-                         'one to three syncs, path spellings, hand-written and random mutations of spec texts; a case is non-trivial when '
-                         'the implementation accepts it and at least one of spec file / flag / all-destructive is present; distinct by argv+spec text')
+                         'one to three syncs, path spellings, hand-written and random mutations of spec texts; filter lists (also with the same filter '
+                         'text repeated at several positions) on the command line x in one to three syncs of a spec file: the effective list must be exactly '
+                         'the command-line list if given, else the sync\'s own list; a case is non-trivial when '
+                         'the implementation accepts it and at least one of spec file / flag / all-destructive / filter is present; distinct by argv+spec text')
     binary = vlib.build_impl()
     vlib.regen_facts(binary)
     run.check_proofs('C16', THEOREMS, extra_targets=['theories/Extract/Ex_settings.vo'])
